@@ -17,4 +17,8 @@ theorem holds_main_survives (r : Role) (s : State) (h : Reachable Facts.grpcMux 
 theorem holds_reaccept_usable (earlierClosed : Bool) : GrpcMux.reacceptUsable Facts.grpcMuxListener earlierClosed = true :=
   Props.C08.reaccept_usable _ (by decide) earlierClosed
 
+theorem holds_every_transport_announced (id transports : Nat) :
+    ∀ t ∈ GrpcMux.transportTags Facts.grpcMuxDialer id transports, t = GrpcMux.Tag.brokered id :=
+  Props.C08.every_transport_announced _ (by decide) id transports
+
 end GoPlugin.Instance.C08
